@@ -36,6 +36,7 @@ type Result struct {
 	Scenario    string              `json:"scenario"`
 	Desc        string              `json:"desc"`
 	Bound       int                 `json:"bound"`
+	FreeBound   int                 `json:"free_bound"`
 	Shard       int                 `json:"shard"`
 	NShards     int                 `json:"nshards"`
 	Execs       int64               `json:"executions"`
@@ -50,6 +51,7 @@ type Result struct {
 	Sample      []string            `json:"sample_trace,omitempty"`
 	WallS       float64             `json:"wall_s"`
 	Races       []string            `json:"races,omitempty"`
+	Longest     []int               `json:"longest_prefix,omitempty"`
 }
 
 func main() {
@@ -57,6 +59,7 @@ func main() {
 	prop := flag.String("prop", "", "property id")
 	name := flag.String("scenario", "", "scenario name")
 	bound := flag.Int("bound", 1, "preemption bound")
+	fbound := flag.Int("fbound", 3, "bound on non-default choices at free (non-preemptive) points; -1 = unbounded")
 	shard := flag.Int("shard", 0, "")
 	nshards := flag.Int("nshards", 1, "")
 	budget := flag.Float64("budget", 0, "wall-clock budget in seconds (0 = none)")
@@ -133,7 +136,7 @@ func main() {
 		}
 		return
 	}
-	x := &vsched.Explorer{Name: sc.Name, Bound: *bound, Body: wrapBody, Check: wrapCheck,
+	x := &vsched.Explorer{Name: sc.Name, Bound: *bound, FreeBound: *fbound, Body: wrapBody, Check: wrapCheck,
 		Shard: *shard, NShards: *nshards, MaxExecs: *maxExecs}
 	x.Cfg.PointAtRelease = *release
 	start := time.Now()
@@ -141,10 +144,10 @@ func main() {
 		x.Deadline = start.Add(time.Duration(*budget * float64(time.Second)))
 	}
 	x.Explore()
-	res := &Result{Prop: sc.Prop, Scenario: sc.Name, Desc: sc.Desc, Bound: *bound, Shard: *shard, NShards: *nshards,
+	res := &Result{Prop: sc.Prop, Scenario: sc.Name, Desc: sc.Desc, Bound: *bound, FreeBound: *fbound, Shard: *shard, NShards: *nshards,
 		Execs: x.Execs, Transitions: x.Transitions, States: len(x.States), MaxPoints: x.MaxPoints,
 		Outcomes: x.Outcomes, Capped: x.Capped, HarnessErr: x.HarnessErr, Violations: x.Viols,
-		Sample: x.Sample, WallS: time.Since(start).Seconds()}
+		Longest: x.Longest, Sample: x.Sample, WallS: time.Since(start).Seconds()}
 	for k := range x.States {
 		res.StateKeys = append(res.StateKeys, k)
 	}
